@@ -130,23 +130,10 @@ def flat(res):
     return [res]
 
 
-def h_op(op: int, a1: int, ar: int, b1: int, br: int, m: int, direction: int):
-    o = choose(op, OPS)
-    if o is None:
-        return None
+def _one(f, name, a1, ar, b1, br, mm, dr):
+    """One (mutation kind, direction) case on fresh operands."""
     a = operand(TA, a1, ar)
-    if a is None:
-        return None
     b = operand(TB, b1, br)
-    if b is None:
-        return None
-    mm = pick(m, 0, MUTS - 1)
-    if mm is None:
-        return None
-    dr = pick(direction, 0, 2)
-    if dr is None:
-        return None
-    name, f = o
     sa, sb = snapshot(a), snapshot(b)
     res = f(a, b)
     if snapshot(a) != sa:
@@ -196,6 +183,24 @@ def h_op(op: int, a1: int, ar: int, b1: int, br: int, m: int, direction: int):
         mutate(qp[0], mm)
         if [snapshot(p) for p in qp[1:]] != s1:
             return ('sibling-results-aliased', name, mm)
+    return None
+
+
+def h_op(op: int, a1: int, ar: int, b1: int, br: int):
+    """Operand shapes are solver-enumerated; the 8 follow-up mutations x 3 directions are looped inside (fresh operands each)."""
+    o = choose(op, OPS)
+    if o is None:
+        return None
+    if operand(TA, a1, ar) is None:
+        return None
+    if operand(TB, b1, br) is None:
+        return None
+    name, f = o
+    for mm in range(MUTS):
+        for dr in range(3):
+            bad = _one(f, name, a1, ar, b1, br, mm, dr)
+            if bad:
+                return bad + ((mm, dr),)
     return True
 
 
